@@ -13,6 +13,8 @@ import PyrollModel.EvalDriver
     interp <x bits> <z bits>           -> bits                     bilinear interpolation on the current grid
     interp1 <z bits> ...               -> bits ...                 linear interpolation on the current polyline
     spline <uw bits|_> <z y z y ...>   -> `rejected` | `<width> <usable> <depth> | z y z y ...`  (current polyline := result)
+    splineown ndarray|other            -> `<a> <w>` (0/1)          a: the groove's vertex array is the caller's memory, w: the
+                                                                   constructor wrote into the caller's memory
     <formula name> k=<bits> ...        -> EvalDriver (generated formula table)
 -/
 namespace GrooveRepDriver
@@ -34,6 +36,7 @@ structure Cfg where
   width : LTerm
   usableDefault : LTerm
   depth : LTerm
+  arrOps : List ArrOp
   table : List (String × Expr)
 
 structure St where
@@ -113,6 +116,9 @@ def handle (cfg : Cfg) (st : St) (line : String) : St × String :=
           floatToBitsStr (cfg.width.eval q) ++ " " ++ floatToBitsStr usable ++ " " ++ floatToBitsStr (cfg.depth.eval q)
             ++ " | " ++ showPts q)
     | none => (st, "bad-op")
+  | ["splineown", kind] =>
+    let o := ownRun (kind == "ndarray") cfg.arrOps
+    (st, (if o.storedIsCallers then "1" else "0") ++ " " ++ (if o.callerWritten then "1" else "0"))
   | _ => (st, EvalDriver.handle cfg.table line)
 
 partial def loop (cfg : Cfg) (h : IO.FS.Stream) (st : St) : IO Unit := do
